@@ -2,14 +2,15 @@
 // Record/Treasure.v + Record/Gob.v.
 //
 // Three kinds of cases:
-//   GobCase    the zero-omission law the model assumes about encoding/gob, checked on the real
-//              library for every field of treasure.Content with zero / boundary / ordinary values;
-//   ValueCase  one treasure through the real ConvertToByte + LoadFromByte, every content type;
-//   ReloadCase histories of Set / Increment* / PatchTreasures / Delete / Uint32SlicePush /
-//              Uint32SliceDelete over all value types (zero, boundary, ordinary values, metadata)
-//              on persistent V2 swamps of the in-process engine; every key is read with Get and
-//              GetByIndex before and after the engine is restarted (a quarter of the swamps also
-//              live under a 1 s idle-close pattern); oracle = equal snapshots.
+//
+//	GobCase    the zero-omission law the model assumes about encoding/gob, checked on the real
+//	           library for every field of treasure.Content with zero / boundary / ordinary values;
+//	ValueCase  one treasure through the real ConvertToByte + LoadFromByte, every content type;
+//	ReloadCase histories of Set / Increment* / PatchTreasures / Delete / Uint32SlicePush /
+//	           Uint32SliceDelete over all value types (zero, boundary, ordinary values, metadata)
+//	           on persistent V2 swamps of the in-process engine; every key is read with Get and
+//	           GetByIndex before and after the engine is restarted (a quarter of the swamps also
+//	           live under a 1 s idle-close pattern); oracle = equal snapshots.
 package main
 
 import (
@@ -33,13 +34,13 @@ import (
 // ---- values -----------------------------------------------------------------------------------
 
 type val struct {
-	T  int      `json:"type"` // treasure.ContentType numbering, 0 = void
-	I  int64    `json:"i,omitempty"`
-	U  uint64   `json:"u,omitempty"`
-	F  uint64   `json:"fbits,omitempty"`
-	S  []byte   `json:"s,omitempty"`
-	B  bool     `json:"b,omitempty"`
-	L  []uint32 `json:"l,omitempty"`
+	T int      `json:"type"` // treasure.ContentType numbering, 0 = void
+	I int64    `json:"i,omitempty"`
+	U uint64   `json:"u,omitempty"`
+	F uint64   `json:"fbits,omitempty"`
+	S []byte   `json:"s,omitempty"`
+	B bool     `json:"b,omitempty"`
+	L []uint32 `json:"l,omitempty"`
 }
 
 var typeNames = []string{"void", "uint8", "uint16", "uint32", "uint64", "int8", "int16", "int32", "int64", "float32", "float64", "string", "bool", "bytes", "uint32slice"}
@@ -109,7 +110,15 @@ func (v val) isZero() bool {
 	return false
 }
 
-// valuesOf: zero, boundary and ordinary values of a content type
+func manyU32(n int) []uint32 {
+	l := make([]uint32, n)
+	for i := range l {
+		l[i] = uint32(i * 7919)
+	}
+	return l
+}
+
+// valuesOf: zero, boundary and ordinary values of a content type (lengths above 255 included)
 func valuesOf(t int) []val {
 	u := func(xs ...uint64) (o []val) {
 		for _, x := range xs {
@@ -155,13 +164,13 @@ func valuesOf(t int) []val {
 		}
 		return o
 	case 11:
-		return []val{{T: 11, S: []byte{}}, {T: 11, S: []byte("a")}, {T: 11, S: []byte("hello world")}, {T: 11, S: []byte{0}}, {T: 11, S: []byte("\xc3\xa9\x00z")}}
+		return []val{{T: 11, S: []byte{}}, {T: 11, S: []byte("a")}, {T: 11, S: []byte("hello world")}, {T: 11, S: []byte{0}}, {T: 11, S: []byte("\xc3\xa9\x00z")}, {T: 11, S: bytes.Repeat([]byte("0123456789"), 30)}}
 	case 12:
 		return []val{{T: 12, B: false}, {T: 12, B: true}}
 	case 13:
-		return []val{{T: 13, S: []byte{}}, {T: 13, S: []byte{0}}, {T: 13, S: []byte{0xC7, 0x00, 0x80}}, {T: 13, S: []byte{1, 2, 3, 0, 255}}}
+		return []val{{T: 13, S: []byte{}}, {T: 13, S: []byte{0}}, {T: 13, S: []byte{0xC7, 0x00, 0x80}}, {T: 13, S: []byte{1, 2, 3, 0, 255}}, {T: 13, S: bytes.Repeat([]byte{0, 200}, 150)}}
 	case 14:
-		return []val{{T: 14, L: []uint32{}}, {T: 14, L: []uint32{0}}, {T: 14, L: []uint32{5, 1, math.MaxUint32}}}
+		return []val{{T: 14, L: []uint32{}}, {T: 14, L: []uint32{0}}, {T: 14, L: []uint32{5, 1, math.MaxUint32}}, {T: 14, L: manyU32(70)}}
 	}
 	return nil
 }
@@ -615,23 +624,37 @@ type hop struct {
 }
 
 type plan struct {
-	idx     int
-	swamp   string
-	idle    bool
-	ops     []hop
-	opTerms []string
-	before  []viewT
-	after   []viewT
-	ibefore []string
-	iafter  []string
-	err     error
-	zero    bool
+	idx   int
+	swamp string
+	idle  bool
+	segs  [3][]hop // segment 0 | writer tick | segment 1 | close+reload | segment 2 | close+reload
+	ops   []hop    // all segments, for the description
+	// observed history and snapshots around the two reloads
+	opTerms   []string
+	nTerms1   int // number of opTerms before the first reload
+	before    [2][]viewT
+	after     [2][]viewT
+	ibefore   [2][]string
+	iafter    [2][]string
+	err       error
+	zero      bool
+	t0        int64
+	opNo      int
+	restarted bool // second case starts from the snapshot after the first reload
+	terms1    []string
 }
 
 const nKeys = 6
 
 func keyName(k int) string { return fmt.Sprintf("k%d", k) }
 
+// genPlan: three segments of operations. Between segment 0 and 1 the background writer ticks
+// (everything written so far is on disk, the swamp stays in memory - or is idle-closed); between
+// 1 and 2, and after 2, the engine is restarted. Besides single operations the generator emits
+// bursts on one key inside one segment (i.e. inside one write interval): update+delete,
+// delete+re-create, update+update, ..., preferably on keys that earlier segments already wrote,
+// so that a record can be "on disk and buffered", "on disk and deleted", "deleted and
+// re-created" when the next operation or the close arrives.
 func genPlan(rng *common.Rng, idx int, tier string) *plan {
 	p := &plan{idx: idx, idle: idx%4 == 3}
 	pat := "r"
@@ -639,10 +662,6 @@ func genPlan(rng *common.Rng, idx int, tier string) *plan {
 		pat = "i"
 	}
 	p.swamp = fmt.Sprintf("c05/%s/s%d", pat, idx)
-	n := 3 + rng.Intn(8)
-	if tier == "thorough" {
-		n = 3 + rng.Intn(14)
-	}
 	// each key has a fixed type for the whole case (type changes through Set are C06's business);
 	// key 5 is the uint32-set key
 	types := make([]int, nKeys)
@@ -650,38 +669,84 @@ func genPlan(rng *common.Rng, idx int, tier string) *plan {
 		types[k] = rng.Intn(14) // 0..13
 	}
 	types[nKeys-1] = 14
-	for i := 0; i < n; i++ {
-		k := rng.Intn(nKeys)
-		t := types[k]
-		x := rng.Intn(100)
+	pick := func(t int) val {
 		vs := valuesOf(t)
-		pick := func() val {
-			if rng.Chance(45) {
-				return vs[0] // the zero value of the type
-			}
-			return vs[rng.Intn(len(vs))]
+		if rng.Chance(45) {
+			return vs[0] // the zero value of the type
 		}
+		return vs[rng.Intn(len(vs))]
+	}
+	update := func(k int) hop {
+		t := types[k]
 		switch {
 		case t == 14:
-			switch {
-			case x < 50:
-				p.ops = append(p.ops, hop{Kind: "push", K: k, V: pick()})
-			case x < 75:
-				p.ops = append(p.ops, hop{Kind: "sdel", K: k, V: val{T: 14, L: []uint32{5}}})
-			default:
-				p.ops = append(p.ops, hop{Kind: "delete", K: k})
-			}
-		case x < 55:
-			p.ops = append(p.ops, hop{Kind: "set", K: k, V: pick(), Meta: rng.Intn(4)})
-		case x < 75 && t >= 1 && t <= 10:
-			p.ops = append(p.ops, hop{Kind: "inc", K: k, V: val{T: t}, By: int64(rng.Intn(3)) - 1, Meta: rng.Intn(2)})
-		case x < 85 && t == 13:
-			p.ops = append(p.ops, hop{Kind: "patch", K: k, Meta: rng.Intn(2)})
-		case x < 92:
-			p.ops = append(p.ops, hop{Kind: "delete", K: k})
-		default:
-			p.ops = append(p.ops, hop{Kind: "set", K: k, V: pick(), Meta: rng.Intn(4)})
+			return hop{Kind: "push", K: k, V: pick(14)}
+		case t >= 1 && t <= 10 && rng.Chance(35):
+			return hop{Kind: "inc", K: k, V: val{T: t}, By: int64(rng.Intn(3)) - 1, Meta: rng.Intn(2)}
+		case t == 13 && rng.Chance(30):
+			return hop{Kind: "patch", K: k, Meta: rng.Intn(2)}
 		}
+		return hop{Kind: "set", K: k, V: pick(t), Meta: rng.Intn(4)}
+	}
+	remove := func(k int) hop {
+		switch x := rng.Intn(100); {
+		case x < 60:
+			return hop{Kind: "delete", K: k}
+		case x < 80:
+			return hop{Kind: "shift", K: k} // ShiftByKeys: the other route into deleteHandler
+		case x < 90:
+			return hop{Kind: "deldup", K: k} // Delete with the key listed twice
+		}
+		return hop{Kind: "delpair", K: k, By: int64((k + 1 + rng.Intn(nKeys-1)) % nKeys)} // two keys in one Delete
+	}
+	written := []int{}
+	for sg := 0; sg < 3; sg++ {
+		items := rng.Intn(4)
+		if sg == 0 {
+			items = 2 + rng.Intn(3)
+		}
+		if tier == "thorough" {
+			items += rng.Intn(3)
+		}
+		touched := []int{}
+		for i := 0; i < items; i++ {
+			k := rng.Intn(nKeys)
+			if len(written) > 0 && rng.Chance(70) {
+				k = written[rng.Intn(len(written))]
+			}
+			touched = append(touched, k)
+			var seq []hop
+			switch x := rng.Intn(100); {
+			case x < 30:
+				seq = []hop{update(k)}
+			case x < 38:
+				seq = []hop{remove(k)}
+			case x < 58:
+				seq = []hop{update(k), remove(k)}
+			case x < 70:
+				seq = []hop{remove(k), update(k)}
+			case x < 78:
+				seq = []hop{update(k), remove(k), update(k)}
+			case x < 84:
+				seq = []hop{update(k), update(k)}
+			case x < 90:
+				seq = []hop{remove(k), remove(k)}
+			case x < 95:
+				seq = []hop{update(k), update(k), remove(k)}
+			default:
+				if types[k] == 14 {
+					seq = []hop{update(k), {Kind: "sdel", K: k, V: val{T: 14, L: []uint32{5}}}}
+				} else {
+					seq = []hop{remove(k), update(k), remove(k)}
+				}
+			}
+			p.segs[sg] = append(p.segs[sg], seq...)
+			if rng.Chance(8) {
+				p.segs[sg] = append(p.segs[sg], hop{Kind: "compact", K: k}) // CompactSwamp: rewrites the file from the live index
+			}
+		}
+		written = append(written, touched...)
+		p.ops = append(p.ops, p.segs[sg]...)
 	}
 	return p
 }
@@ -748,91 +813,176 @@ func snapshot(a *c30.API, p *plan) ([]viewT, []string, error) {
 	return vs, idx, nil
 }
 
-func phaseA(a *c30.API, p *plan) {
-	t0 := time.Now().UnixNano()
+func doOp(a *c30.API, p *plan, o hop) error {
+	key := keyName(o.K)
+	i := p.opNo
+	p.opNo++
+	t0 := p.t0
+	var err error
+	switch o.Kind {
+	case "set":
+		kv := kvOf(key, o.V)
+		if o.Meta&1 == 1 {
+			kv.CreatedAt = c30.TSNanos(t0 - int64(i+1)*1e9)
+			by := "alice"
+			kv.CreatedBy = &by
+			kv.ExpiredAt = c30.TSNanos(t0 + 3600e9)
+		}
+		if o.Meta&2 == 2 {
+			kv.UpdatedAt = c30.TSNanos(t0 + int64(i))
+			by := "bob"
+			kv.UpdatedBy = &by
+		}
+		_, err = a.Set(p.swamp, kv)
+	case "inc":
+		var m *hydrapb.IncrementRequestMetadata
+		if o.Meta == 1 {
+			tr := true
+			by := "carol"
+			m = &hydrapb.IncrementRequestMetadata{CreatedAt: &tr, UpdatedAt: &tr, UpdatedBy: &by, ExpiredAt: c30.TSNanos(t0 - 3600e9)}
+		}
+		err = doInc(a, p.swamp, key, o.V.T, o.By, m)
+	case "patch":
+		var meta *hydrapb.PatchMeta
+		if o.Meta == 1 {
+			by := "dave"
+			meta = &hydrapb.PatchMeta{SetUpdatedAt: true, SetUpdatedBy: &by, SetCreatedAt: true, SetExpiredAt: c30.TS(-3600, 0)}
+		}
+		_, err = a.Patch(p.swamp, key, true, meta, nil)
+	case "delete":
+		err = a.Delete(p.swamp, []string{key})
+	case "deldup":
+		err = a.Delete(p.swamp, []string{key, key})
+	case "delpair":
+		err = a.Delete(p.swamp, []string{key, keyName(int(o.By))})
+	case "compact":
+		c, cancel := context.WithTimeout(context.Background(), 20*time.Second)
+		_, cerr := a.S.GW.CompactSwamp(c, &hydrapb.CompactSwampRequest{IslandID: a.Island, SwampName: p.swamp})
+		cancel()
+		_ = cerr   // nothing on disk yet / missing swamp: acceptable
+		return nil // no record is touched: not an operation of the model
+	case "shift":
+		c, cancel := context.WithTimeout(context.Background(), 20*time.Second)
+		_, serr := a.S.GW.ShiftByKeys(c, &hydrapb.ShiftByKeysRequest{IslandID: a.Island, SwampName: p.swamp, Keys: []string{key}})
+		cancel()
+		_ = serr // a missing key / missing swamp is an acceptable outcome: the observed record decides
+	case "push":
+		c, cancel := context.WithTimeout(context.Background(), 20*time.Second)
+		_, err = a.S.GW.Uint32SlicePush(c, &hydrapb.AddToUint32SlicePushRequest{IslandID: a.Island, SwampName: p.swamp, KeySlicePairs: []*hydrapb.KeySlicePair{{Key: key, Values: o.V.L}}})
+		cancel()
+	case "sdel":
+		// never delete down to an empty set through this RPC (Uint32SliceDelete on the last
+		// element blocked on the pinned commit); 5 is removed only if something else stays
+		ts, gerr := a.Get(p.swamp, []string{key})
+		if gerr == nil && len(ts) == 1 && len(ts[0].Uint32Slice) >= 2 {
+			c, cancel := context.WithTimeout(context.Background(), 20*time.Second)
+			_, err = a.S.GW.Uint32SliceDelete(c, &hydrapb.Uint32SliceDeleteRequest{IslandID: a.Island, SwampName: p.swamp, KeySlicePairs: []*hydrapb.KeySlicePair{{Key: key, Values: o.V.L}}})
+			cancel()
+		}
+	}
+	if err != nil {
+		return fmt.Errorf("op %d %s: %w", i, o.Kind, err)
+	}
+	// observe what the operation left behind (M2) - for every key it may have touched
+	keys := []int{o.K}
+	if o.Kind == "delpair" {
+		keys = append(keys, int(o.By))
+	}
+	for _, k := range keys {
+		ts, gerr := a.Get(p.swamp, []string{keyName(k)})
+		if gerr != nil {
+			return fmt.Errorf("get after op %d: %w", i, gerr)
+		}
+		w := viewOf(a, p.swamp, ts[0])
+		if w.Exist {
+			p.opTerms = append(p.opTerms, common.App("OWrite", common.N(uint64(k)), w.coqRec()))
+			if w.V.isZero() {
+				p.zero = true
+			}
+		} else {
+			p.opTerms = append(p.opTerms, common.App("ODelete", common.N(uint64(k))))
+		}
+	}
+	return nil
+}
+
+func runSeg(a *c30.API, p *plan, sg int) {
+	if p.err != nil {
+		return
+	}
+	for _, o := range p.segs[sg] {
+		if err := doOp(a, p, o); err != nil {
+			p.err = err
+			return
+		}
+	}
+}
+
+// phase 0: sentinel + segment 0 (then the writer ticks)
+func phase0(a *c30.API, p *plan) {
+	p.t0 = time.Now().UnixNano()
 	// sentinel: keeps the swamp alive when every other key is deleted
 	if _, err := a.Set(p.swamp, &hydrapb.KeyValuePair{Key: "k9", BytesVal: []byte{1}}); err != nil {
 		p.err = err
 		return
 	}
 	p.opTerms = append(p.opTerms, common.App("OWrite", "9%N", viewT{Exist: true, V: val{T: 13, S: []byte{1}}}.coqRec()))
-	for i, o := range p.ops {
-		key := keyName(o.K)
-		var err error
-		switch o.Kind {
-		case "set":
-			kv := kvOf(key, o.V)
-			if o.Meta&1 == 1 {
-				kv.CreatedAt = c30.TSNanos(t0 - int64(i+1)*1e9)
-				by := "alice"
-				kv.CreatedBy = &by
-				kv.ExpiredAt = c30.TSNanos(t0 + 3600e9)
-			}
-			if o.Meta&2 == 2 {
-				kv.UpdatedAt = c30.TSNanos(t0 + int64(i))
-				by := "bob"
-				kv.UpdatedBy = &by
-			}
-			_, err = a.Set(p.swamp, kv)
-		case "inc":
-			var m *hydrapb.IncrementRequestMetadata
-			if o.Meta == 1 {
-				tr := true
-				by := "carol"
-				m = &hydrapb.IncrementRequestMetadata{CreatedAt: &tr, UpdatedAt: &tr, UpdatedBy: &by, ExpiredAt: c30.TSNanos(t0 - 3600e9)}
-			}
-			err = doInc(a, p.swamp, key, o.V.T, o.By, m)
-		case "patch":
-			var meta *hydrapb.PatchMeta
-			if o.Meta == 1 {
-				by := "dave"
-				meta = &hydrapb.PatchMeta{SetUpdatedAt: true, SetUpdatedBy: &by, SetCreatedAt: true, SetExpiredAt: c30.TS(-3600, 0)}
-			}
-			_, err = a.Patch(p.swamp, key, true, meta, nil)
-		case "delete":
-			err = a.Delete(p.swamp, []string{key})
-		case "push":
-			c, cancel := context.WithTimeout(context.Background(), 20*time.Second)
-			_, err = a.S.GW.Uint32SlicePush(c, &hydrapb.AddToUint32SlicePushRequest{IslandID: a.Island, SwampName: p.swamp, KeySlicePairs: []*hydrapb.KeySlicePair{{Key: key, Values: o.V.L}}})
-			cancel()
-		case "sdel":
-			// never delete down to an empty set through this RPC (Uint32SliceDelete on the last
-			// element is a10's finding: it blocks); 5 is removed only if something else stays
-			ts, gerr := a.Get(p.swamp, []string{key})
-			if gerr == nil && len(ts) == 1 && len(ts[0].Uint32Slice) >= 2 {
-				c, cancel := context.WithTimeout(context.Background(), 20*time.Second)
-				_, err = a.S.GW.Uint32SliceDelete(c, &hydrapb.Uint32SliceDeleteRequest{IslandID: a.Island, SwampName: p.swamp, KeySlicePairs: []*hydrapb.KeySlicePair{{Key: key, Values: o.V.L}}})
-				cancel()
-			}
-		}
-		if err != nil {
-			p.err = fmt.Errorf("op %d %s: %w", i, o.Kind, err)
-			return
-		}
-		// observe what the operation left behind (M2)
-		ts, gerr := a.Get(p.swamp, []string{key})
-		if gerr != nil {
-			p.err = fmt.Errorf("get after op %d: %w", i, gerr)
-			return
-		}
-		w := viewOf(a, p.swamp, ts[0])
-		if w.Exist {
-			p.opTerms = append(p.opTerms, common.App("OWrite", common.N(uint64(o.K)), w.coqRec()))
-			if w.V.isZero() {
-				p.zero = true
-			}
-		} else {
-			p.opTerms = append(p.opTerms, common.App("ODelete", common.N(uint64(o.K))))
-		}
-	}
-	p.before, p.ibefore, p.err = snapshot(a, p)
+	runSeg(a, p, 0)
 }
 
-func phaseB(a *c30.API, p *plan) {
+// phase 1: segment 1, snapshot (then the engine restarts)
+func phase1(a *c30.API, p *plan) {
+	if p.err == nil {
+		p.opTerms = append(p.opTerms, "OTick") // the harness waited longer than the write interval
+	}
+	runSeg(a, p, 1)
 	if p.err != nil {
 		return
 	}
-	p.after, p.iafter, p.err = snapshot(a, p)
+	p.nTerms1 = len(p.opTerms)
+	p.terms1 = append([]string{}, p.opTerms...)
+	p.before[0], p.ibefore[0], p.err = snapshot(a, p)
+}
+
+// phase 2: snapshot after the first reload, segment 2, snapshot (then the engine restarts again)
+func phase2(a *c30.API, p *plan) {
+	if p.err != nil {
+		return
+	}
+	if p.after[0], p.iafter[0], p.err = snapshot(a, p); p.err != nil {
+		return
+	}
+	if viewsCoq(p.before[0]) == viewsCoq(p.after[0]) {
+		p.opTerms = append(p.opTerms, "OReload")
+	} else {
+		// the first reload already changed something (reported by the first case): the second
+		// case starts from what was actually there after it, so that it is judged on its own
+		p.opTerms = p.opTerms[:0]
+		for i, w := range p.after[0] {
+			k := i
+			if i == nKeys {
+				k = 9
+			}
+			if w.Exist {
+				p.opTerms = append(p.opTerms, common.App("OWrite", common.N(uint64(k)), w.coqRec()))
+			}
+		}
+		p.opTerms = append(p.opTerms, "OReload")
+		p.restarted = true
+	}
+	runSeg(a, p, 2)
+	if p.err != nil {
+		return
+	}
+	p.before[1], p.ibefore[1], p.err = snapshot(a, p)
+}
+
+// phase 3: snapshot after the second reload
+func phase3(a *c30.API, p *plan) {
+	if p.err != nil {
+		return
+	}
+	p.after[1], p.iafter[1], p.err = snapshot(a, p)
 }
 
 func viewsCoq(vs []viewT) string {
@@ -850,7 +1000,7 @@ func viewsCoq(vs []viewT) string {
 func main() {
 	args := common.ParseArgs()
 	run := common.NewRun(args, "C05", "HV.Record.Gob")
-	run.Shard = 100 // cases are a few KB each: smaller shards evaluate in parallel
+	run.Shard = 70 // cases are a few KB each: smaller shards evaluate in parallel
 	run.Meta.Rule = "non-trivial = the case stores at least one typed zero-like value (0, -0.0, \"\", false, empty bytes, empty uint32 set) or, for gob/value cases, the value is such a zero"
 	rig.Quiet()
 	fixed := hasHintField()
@@ -910,9 +1060,9 @@ func main() {
 	// part 3: engine histories
 	root, _ := os.MkdirTemp("", "c05")
 	defer os.RemoveAll(root)
-	n := 360
+	n := 190
 	if args.Tier == "thorough" {
-		n = 3000
+		n = 1600
 	}
 	rng := common.NewRng(args.Seed, "C05")
 	plans := make([]*plan, n)
@@ -926,13 +1076,19 @@ func main() {
 	s := rig.Start(root, true)
 	register(s)
 	a := c30.New(s)
-	common.Parallel(n, 16, func(i int) { phaseA(a, plans[i]) })
-	time.Sleep(2500 * time.Millisecond) // 1 s idle-close pattern evicts its swamps; write interval 1 s
+	common.Parallel(n, 16, func(i int) { phase0(a, plans[i]) })
+	time.Sleep(2200 * time.Millisecond) // the 1 s writer tick flushes segment 0; the 1 s idle-close pattern evicts its swamps
+	common.Parallel(n, 16, func(i int) { phase1(a, plans[i]) })
 	a.Close()
 	s = s.Restart()
 	register(s)
 	a = c30.New(s)
-	common.Parallel(n, 16, func(i int) { phaseB(a, plans[i]) })
+	common.Parallel(n, 16, func(i int) { phase2(a, plans[i]) })
+	a.Close()
+	s = s.Restart()
+	register(s)
+	a = c30.New(s)
+	common.Parallel(n, 16, func(i int) { phase3(a, plans[i]) })
 	a.Close()
 	s.Stop()
 
@@ -943,12 +1099,35 @@ func main() {
 			run.Violate(idx, "harness", "rpc_error", p.err.Error())
 			continue
 		}
-		term := common.App("ReloadCase", common.Bool(fixed), common.List(p.opTerms), viewsCoq(p.before), viewsCoq(p.after), common.List(p.ibefore), common.List(p.iafter))
-		run.Add(term, map[string]interface{}{"kind": "reload", "swamp": p.swamp, "ops": p.ops, "before": p.before, "after": p.after, "idle_pattern": p.idle}, p.zero)
-		for _, o := range p.ops {
-			run.Hist("op:" + o.Kind)
-			if o.Kind == "set" {
-				run.Hist("set:" + typeNames[o.V.T])
+		for r := 0; r < 2; r++ {
+			terms := p.opTerms
+			if r == 0 {
+				terms = p.terms1
+			}
+			term := common.App("ReloadCase", common.Bool(fixed), common.List(terms), viewsCoq(p.before[r]), viewsCoq(p.after[r]), common.List(p.ibefore[r]), common.List(p.iafter[r]))
+			run.Add(term, map[string]interface{}{"kind": "reload", "reload_no": r + 1, "swamp": p.swamp,
+				"segment0_then_writer_tick": p.segs[0], "segment1_then_reload": p.segs[1], "segment2_then_reload": p.segs[2],
+				"before": p.before[r], "after": p.after[r], "idle_pattern": p.idle}, p.zero || len(p.segs[r+1]) > 0)
+		}
+		for sg := 0; sg < 3; sg++ {
+			seen := map[int]string{}
+			for _, o := range p.segs[sg] {
+				run.Hist("op:" + o.Kind)
+				if o.Kind == "set" {
+					run.Hist("set:" + typeNames[o.V.T])
+				}
+				rm := o.Kind == "delete" || o.Kind == "shift" || o.Kind == "deldup" || o.Kind == "delpair"
+				if rm && seen[o.K] == "update" {
+					run.Hist(fmt.Sprintf("update_then_remove_within_segment%d", sg))
+				}
+				if !rm && seen[o.K] == "remove" {
+					run.Hist(fmt.Sprintf("remove_then_recreate_within_segment%d", sg))
+				}
+				if rm {
+					seen[o.K] = "remove"
+				} else {
+					seen[o.K] = "update"
+				}
 			}
 		}
 		if p.idle {
